@@ -483,7 +483,10 @@ def bits_of(e, env, width=64):
     return out
 
 
-def _bits_of(e, env, width=64):
+def _bits_of(e, env, width=64, structural=False):
+    """structural=True: atoms contribute all bits of their declared width (no interval knowledge)"""
+    if structural:
+        return _bits_struct(e, env, width)
     op = e.op
     if op == "const":
         v = e.args[0]
@@ -561,6 +564,51 @@ def _bits_of(e, env, width=64):
     if lo < 0:
         n = width
     return [(k, i) if i < n else 0 for i in range(width)]
+
+
+def _bits_struct(e, env, width):
+    op = e.op
+    if op == "const":
+        v = e.args[0]
+        return [(v >> i) & 1 for i in range(width)]
+    if op == "cast":
+        inner = _bits_struct(e.args[0], env, width)
+        n = TYBITS.get(e.ty, width)
+        return [inner[i] if i < n else 0 for i in range(width)]
+    if op == "shl" and e.args[1].op == "const":
+        k = e.args[1].args[0]
+        inner = _bits_struct(e.args[0], env, width)
+        n = TYBITS.get(e.ty, width)
+        return [inner[i - k] if (i - k >= 0 and i < n) else 0 for i in range(width)]
+    if op == "shr" and e.args[1].op == "const":
+        k = e.args[1].args[0]
+        inner = _bits_struct(e.args[0], env, width + k)
+        return [inner[i + k] if i + k < len(inner) else 0 for i in range(width)]
+    if op == "and":
+        a = _bits_struct(e.args[0], env, width)
+        b = _bits_struct(e.args[1], env, width)
+        out = []
+        for x, y in zip(a, b):
+            if x == 0 or y == 0:
+                out.append(0)
+            elif x == 1:
+                out.append(y)
+            elif y == 1:
+                out.append(x)
+            else:
+                out.append(x if x == y else None)
+        return out
+    if op in ("or", "xor"):
+        a = _bits_struct(e.args[0], env, width)
+        b = _bits_struct(e.args[1], env, width)
+        return [y if x == 0 else (x if y == 0 else None) for x, y in zip(a, b)]
+    k = e.key()
+    env.atoms[k] = e
+    if op == "sym" and e.args[2] is not None:
+        n = int(e.args[2]).bit_length()
+    else:
+        n = TYBITS.get(e.ty, width)
+    return [(k, i) if i < min(n, width) else 0 for i in range(width)]
 
 
 def bit_fields(bits):
